@@ -124,6 +124,8 @@ def oracle(h, cfg):
     if not pass_partition_ok(seq, snaps):
       out.append(('starvation', '%s: drain sequence %r cannot be split into passes that each cover the metrics present at their start %r' % (
         st, seq, [sorted(s) for s in snaps])))
+  from vlib import cachesim as _cs
+  out.extend(_cs.check_conservation(h))        # "hands out every cached datapoint": none lost, none twice
   left = getattr(h, 'left_after_rest', {})
   if left:
     out.append(('not-drained', 'with input stopped repeated draining ended with datapoints left: %r' % left))
